@@ -18,6 +18,7 @@ import (
 	"github.com/cnotch/ipchub/config"
 	"github.com/cnotch/ipchub/media"
 	"github.com/cnotch/ipchub/network/websocket"
+	"github.com/cnotch/ipchub/provider/auth"
 	"github.com/cnotch/ipchub/provider/security"
 	"github.com/cnotch/ipchub/service/rtsp"
 	"github.com/cnotch/ipchub/stats"
@@ -281,6 +282,11 @@ func (s *Session) onDescribe(resp *rtsp.Response, req *rtsp.Request) {
 		return
 	}
 
+	if !s.checkPermission() {
+		resp.StatusCode = rtsp.StatusForbidden
+		return
+	}
+
 	// 从流中取 sdp
 	sdpRaw := stream.Sdp()
 	if len(sdpRaw) == 0 {
@@ -370,6 +376,11 @@ func (s *Session) onPlay(resp *rtsp.Response, req *rtsp.Request) {
 		return
 	}
 
+	if !s.checkPermission() {
+		resp.StatusCode = rtsp.StatusForbidden
+		return
+	}
+
 	resp.Header.Set(rtsp.FieldRange, req.Header.Get(rtsp.FieldRange))
 	if s.cid == nil {
 		s.source = stream
@@ -380,6 +391,16 @@ func (s *Session) onPlay(resp *rtsp.Response, req *rtsp.Request) {
 	s.status = statusPlaying
 	s.paused = false
 	return
+}
+
+// checkPermission: the HTTP upgrade verified the user's token and pull right once;
+// requests made later on the channel are decided on the rights as saved now.
+func (s *Session) checkPermission() bool {
+	if !config.Auth() {
+		return true
+	}
+	u := auth.Get(s.username)
+	return u != nil && u.ValidatePermission(s.path, auth.PullRight)
 }
 
 func (s *Session) onPause(resp *rtsp.Response, req *rtsp.Request) {
